@@ -56,6 +56,12 @@ CLAIMS = {
             "releases, nested unlock only decrements), pool_monitor (lock pointer written only under the spin bit, +-reference arithmetic, "
             "pool lock detached only by the last holder and returned after the spin release), injecting_monitor/lock_array forwarding. "
             "Mutual exclusion as a behavioural fact is not decided.", PATHS, "DESIGN.md §4 C22"),
+    "C23": ("other", "Path rules over the flat-combining kernel: combining only while owning the combiner mutex (try_lock won, or the wait returned "
+            "'become combiner' which happens only after a won try_lock without unlock) inside an adopting lock_guard, after re-publishing the own "
+            "record; request word published before combining; combining_pass applies only active records with a pending operation and marks them "
+            "done once, right after; operation_done stores req_Response (release) before notifying; the wait reports 'done' only after reading "
+            "req_Response; compact_list frees only 'removed' records it unlinked by a successful CAS. The interleaving statement is not decided.",
+            PATHS, "DESIGN.md §4 C23"),
     "C24": ("other", "Path rules over the three Vyukov-queue pools and pool_allocator: deallocate gives an object to exactly one owner (queue iff in "
             "the preallocated range / lazy: queue xor heap), destroyed before published, refused pushes retried; allocate returns the popped "
             "object or one fresh allocation; preallocation pushes each object of [first,last) once and from_pool tests exactly that range; "
